@@ -14,7 +14,7 @@ use crate::{
     world::*,
 };
 use barter::{
-    backtest::{BacktestArgsConstant, BacktestArgsDynamic, market_data::BacktestMarketData, run_backtests},
+    backtest::{BacktestArgsConstant, BacktestArgsDynamic, market_data::{BacktestMarketData, MarketDataInMemory}, run_backtests},
     engine::{
         Engine, Processor,
         clock::HistoricalClock,
@@ -341,6 +341,9 @@ pub struct ScenarioG {
     pub h2_rate: (u64, u64),
     pub hook_seed: u64,
     pub tokio_seed: u64,
+    /// serve the dataset through the real `MarketDataInMemory` (unpaced) instead of the paced seam
+    #[serde(default)]
+    pub in_memory: bool,
 }
 
 pub struct SimG;
@@ -398,6 +401,23 @@ fn realised_pnl_of_closed(fills: &[FillRec]) -> Decimal {
 }
 
 fn run_set(sc: &ScenarioG, which: &[usize]) -> Result<(Vec<BtResult>, u64), String> {
+    if sc.in_memory {
+        run_set_with(sc, which, |events, _| MarketDataInMemory::new(Arc::new(events)))
+    } else {
+        run_set_with(sc, which, |events, pacing| SimMarketData {
+            events: Arc::new(events),
+            pacing: Arc::new(pacing),
+            calls: Arc::new(AtomicUsize::new(0)),
+            tail_gap_ms: 2 * sc.latency_ms + 7,
+        })
+    }
+}
+
+fn run_set_with<M, F>(sc: &ScenarioG, which: &[usize], mk_data: F) -> Result<(Vec<BtResult>, u64), String>
+where
+    M: BacktestMarketData<Kind = DataKind> + Send + Sync + 'static,
+    F: FnOnce(Vec<MarketStreamEvent<InstrumentIndex, DataKind>>, Vec<Vec<u64>>) -> M,
+{
     let instruments = instruments_g(sc.n_inst);
     let n_inst = instruments.instruments().len();
     let events: Vec<MarketStreamEvent<InstrumentIndex, DataKind>> = {
@@ -443,12 +463,7 @@ fn run_set(sc: &ScenarioG, which: &[usize]) -> Result<(Vec<BtResult>, u64), Stri
     let constant = Arc::new(BacktestArgsConstant {
         instruments,
         executions: vec![ExecutionConfig::Mock(mock)],
-        market_data: SimMarketData {
-            events: Arc::new(events),
-            pacing: Arc::new(pacing),
-            calls: Arc::new(AtomicUsize::new(0)),
-            tail_gap_ms: 2 * sc.latency_ms + 7,
-        },
+        market_data: mk_data(events, pacing),
         summary_interval: Daily,
         engine_state,
     });
@@ -525,7 +540,11 @@ impl Sim for SimG {
         "C20"
     }
     fn sub_batches(&self) -> Vec<&'static str> {
-        vec!["plain_schedule(no spurious yields)", "seeded_spurious_yields_and_tie_heavy_pacing"]
+        vec![
+            "plain_schedule(no spurious yields)",
+            "seeded_spurious_yields_and_tie_heavy_pacing",
+            "real_MarketDataInMemory_large_dataset(unpaced, non-ordering strategy)",
+        ]
     }
     fn default_runs(&self) -> (u64, u64) {
         (40_000, 1_500_000)
@@ -533,24 +552,32 @@ impl Sim for SimG {
 
     fn plan(&self, rng: &mut Rng, sub: usize) -> ScenarioG {
         let n_inst = 1 + rng.usize(3);
+        let in_memory = sub == 2;
         let span = if rng.chance(1, 4) { 180 } else { 60 };
-        let n_events = 20 + rng.usize(span);
+        let n_events = if in_memory { 900 + rng.usize(2400) } else { 20 + rng.usize(span) };
         let latency_ms = *rng.pick(&[0u64, 1, 2, 10, 50]);
         let events: Vec<(usize, i64, i64)> = (0..n_events)
             .map(|_| (rng.usize(n_inst), rng.range(50, 150), rng.range(0, 3)))
             .collect();
-        let n_bt = 2 + rng.usize(5);
+        let n_bt = if in_memory { 2 + rng.usize(2) } else { 2 + rng.usize(5) };
         let backtests: Vec<BtG> = (0..n_bt)
             .map(|_| {
-                let modulus = 1 + rng.below(6);
+                // (unpaced in-memory data is drained before any fill can arrive, so whether a fill
+                // beats the shutdown is pure scheduling: that sub-batch uses a non-ordering strategy)
+                let modulus = if in_memory { u64::MAX / 2 } else { 1 + rng.below(6) };
                 let plen = 1 + rng.usize(5);
                 BtG {
                     modulus,
-                    residue: rng.below(modulus),
+                    residue: if in_memory { 1 } else { rng.below(modulus) },
                     phase: rng.below(2),
                     pacing: (0..plen)
                         .map(|_| {
-                            *rng.pick(&[0u64, 0, 1, latency_ms, latency_ms + 1, latency_ms.saturating_sub(1), 2 * latency_ms, 100])
+                            // mostly ties around the exchange latency; sometimes long gaps (a slow source)
+                            if rng.chance(1, 40) {
+                                *rng.pick(&[1_000u64, 10_000])
+                            } else {
+                                *rng.pick(&[0u64, 0, 1, latency_ms, latency_ms + 1, latency_ms.saturating_sub(1), 2 * latency_ms, 100])
+                            }
                         })
                         .collect(),
                 }
@@ -563,9 +590,10 @@ impl Sim for SimG {
             fee_bp: *rng.pick(&[0i64, 10, 100]),
             init_quote: *rng.pick(&[100i64, 1_000, 1_000_000]),
             backtests,
-            h2_rate: if sub == 1 { *rng.pick(&[(1u64, 64u64), (1, 8), (1, 2)]) } else { (0, 1) },
+            h2_rate: if sub >= 1 { *rng.pick(&[(1u64, 64u64), (1, 8), (1, 2)]) } else { (0, 1) },
             hook_seed: rng.next_u64(),
             tokio_seed: rng.next_u64(),
+            in_memory,
         }
     }
 
@@ -698,6 +726,12 @@ impl Sim for SimG {
             if n_bt >= 4 {
                 stats.probe("four_or_more_concurrent");
             }
+            if sc.in_memory && n_events >= 1024 {
+                stats.probe("in_memory_dataset_over_1k_events");
+            }
+            if stats.sim_time_ms > 30_000 * (n_bt as u64 + 1) {
+                stats.probe("slow_market_source_over_30s");
+            }
             break;
         }
         Outcome { violation, stats, log_hash: log.hash(), signature: log.signature(), log: log.lines }
@@ -740,6 +774,11 @@ impl Sim for SimG {
             s.n_inst -= 1;
             out.push(s);
         }
+        if sc.in_memory {
+            let mut s = sc.clone();
+            s.in_memory = false;
+            out.push(s);
+        }
         for (k, b) in sc.backtests.iter().enumerate() {
             if b.pacing != vec![1] {
                 let mut s = sc.clone();
@@ -776,7 +815,13 @@ impl Sim for SimG {
         vec!["concurrent_backtests", "spurious_yield_hook"]
     }
     fn probe_kinds(&self) -> Vec<&'static str> {
-        vec!["backtest_with_fills", "closed_position_with_pnl", "four_or_more_concurrent"]
+        vec![
+            "backtest_with_fills",
+            "closed_position_with_pnl",
+            "four_or_more_concurrent",
+            "in_memory_dataset_over_1k_events",
+            "slow_market_source_over_30s",
+        ]
     }
     fn assumptions(&self) -> Vec<String> {
         vec![
